@@ -43,6 +43,21 @@ def protocol_battery():
                       note="clock rows in a test that reads outputs"))
     b.append(Scenario("A B\n1 2\n", [("out", "Y", 8), ("in", "A", 8, -1), ("in", "B", 4, 0x25), ("bidir", "D", 9, 511)], default_answer=[0, 0],
                       note="defaults that do not fit their width are sent as given"))
+    # second round: headers that name only inputs (the device's outputs stay unnamed), bidirectional defaults, values
+    # wider than their signal
+    b.append(Scenario("CLK A\nC 0\nC 1\n", S, default_answer=[1, 0], expect={"call_kinds": ["read"] + ["write", "write", "read"] * 2},
+                      note="clock rows under a header that names only inputs"))
+    b.append(Scenario("CLK A\nC 0\nC 1\n", S, default_answer=[1, 0], override_write=False,
+                      note="clock rows, inputs-only header, driver without write_input override"))
+    b.append(Scenario("CLK\nC\n0\nC\n", [("in", "CLK", 1, 0), ("out", "Q", 4)], default_answer=[3],
+                      expect={"call_kinds": ["read", "write", "write", "read", "read", "write", "write", "read"]},
+                      note="clock-only header"))
+    b.append(Scenario("A Y\n1 X\n0 X\n", [("in", "A", 8, 0), ("bidir", "D", 8, 90), ("bidir", "E", 4, "Z"), ("out", "Y", 8)],
+                      default_answer=[0, 0, 0], note="bidirectional signals the header omits are driven with their defaults from the first call on"))
+    b.append(Scenario("A B Y\n16 31 X\n(0-1) 300 X\nloop(i,3)\n(i*100) (i+14) X\nend loop\n", [("in", "A", 4, 0), ("in", "B", 4, 0), ("out", "Y", 8)],
+                      default_answer=[0], note="values wider than their signal: the driver gets what the row reports"))
+    b.append(Scenario("CLK A Y\nC 17 X\nC 33 1\n", [("in", "CLK", 1, 0), ("in", "A", 4, 0), ("out", "Y", 8)], default_answer=[1],
+                      note="wide values on clocked rows"))
     return b
 
 
